@@ -46,9 +46,7 @@ func NewProvider(fs filesystem.Filespace, helpersPath, layoutPath, viewPath, ext
 
 // Base return base template (with loaded helpers)
 func (provider *Provider) Base() (*template.Template, error) {
-	if provider.baseTemplate != nil {
-		return provider.baseTemplate, nil
-	}
+	// the cached base is read under the base mutex (in base)
 	return provider.base()
 }
 
